@@ -1132,6 +1132,12 @@ fn relabel_c04(fs: Vec<Finding>) -> Vec<Finding> {
                 Some(f)
             } else if f.rule.starts_with("c04.") {
                 Some(f)
+            } else if f.rule == "any.nonterm" || f.rule == "any.deadlock" {
+                // only reported by the iofault profile, and only if the injected failure fired
+                // (the callers drop it otherwise): a failed append must not leave the engine in a
+                // state in which later operations never return
+                f.rule = "c04.hang_after_fault".into();
+                Some(f)
             } else {
                 None
             }
@@ -1179,6 +1185,7 @@ impl C04Scenario {
             return out;
         }
         let ops = index_ops(&base);
+        let base_steps = rr0.incs[0].events.iter().map(|e| e.step).max().unwrap_or(0);
         // I/O events performed by append operations of the first incarnation
         let mut per_op: BTreeMap<(u32, u32), u32> = BTreeMap::new();
         let mut points: Vec<(u32, u32, String, u64)> = Vec::new(); // (op, nth, kind, len)
@@ -1222,6 +1229,9 @@ impl C04Scenario {
                 }
                 let mut plan = base.clone();
                 plan.incarnations[0].faults = vec![Fault { sel: Sel::InOp { op, nth }, act }];
+                // the fault-free run took base_steps; a run that needs far more than that is
+                // spinning, and the default budget of 3M steps costs half a minute of wall clock
+                plan.incarnations[0].sched.step_budget = (base_steps * 40).max(200_000);
                 let rr = run_plan(&env.bins, &plan, &RunOpts::default());
                 out.executions += rr.incs.len() as u64;
                 absorb_summary(&mut out, &rr);
@@ -1238,7 +1248,12 @@ impl C04Scenario {
                 let (fs, _) = judge_seq(&plan, &rr);
                 let facts = iofault_facts(&plan, &rr);
                 for f in relabel_c04(fs) {
+                    if f.rule == "c04.hang_after_fault" && !fired {
+                        continue;
+                    }
                     let mut f = f;
+                    let after_restart = f.inc > 0;
+                    f = f.fact("after_restart", serde_json::json!(after_restart));
                     for (k, v) in facts.iter() {
                         f = f.fact(k, v.clone());
                     }
@@ -1304,7 +1319,10 @@ impl Scenario for C04Scenario {
                 (
                     relabel_c04(fs)
                         .into_iter()
+                        .filter(|f| f.rule != "c04.hang_after_fault" || rr.incs.first().map(|i| i.events.iter().any(|e| e.t == "fault")).unwrap_or(false))
                         .map(|mut f| {
+                            let after_restart = f.inc > 0;
+                            f = f.fact("after_restart", serde_json::json!(after_restart));
                             for (k, v) in facts.iter() {
                                 f = f.fact(k, v.clone());
                             }
